@@ -186,14 +186,20 @@ func c19RenderCase(r *fw.Rand, depth, wrap, padEntry, padCallee int, sameFile bo
 	}
 	a.WriteString("/** @param? u */\n{template .leaf}{isNonnull($u)}{/template}\n")
 	b.WriteString("/** @param? u */\n{template .leaf}{isNonnull($u)}{/template}\n")
-	files = []srcFile{{"entry.soy", a.String()}}
+	// file names are only labels: sometimes both files carry the same (or no) name
+	entryFile = []string{"entry.soy", "entry.soy", "", "same.soy"}[r.Intn(4)]
+	calleeFile := "callee.soy"
+	if entryFile != "entry.soy" {
+		calleeFile = entryFile
+	}
+	files = []srcFile{{entryFile, a.String()}}
 	if !sameFile {
-		files = append(files, srcFile{"callee.soy", b.String()})
+		files = append(files, srcFile{calleeFile, b.String()})
 		if r.Bool() {
 			files[0], files[1] = files[1], files[0]
 		}
 	}
-	return files, "entry.soy", okLines, desc
+	return files, entryFile, okLines, desc
 }
 
 func init() {
